@@ -14,7 +14,7 @@ import time
 
 import z3
 
-from .poly import PCtx, Poly, Rat, R, P, Infeasible, ONE, ZERO
+from .poly import PCtx, Poly, Rat, R, P, Infeasible, KernelTimeout, ONE, ZERO
 
 _current = None     # the Path being executed (host-level operators need it)
 
@@ -771,6 +771,10 @@ class Explorer:
             except PathAbort:
                 self.aborted += 1
                 self.path_log.append((function_name, " ".join(path.sig), "end", path.obl_count))
+            except KernelTimeout:
+                self.unsupported.append(f"{function_name}: time budget of the unit exceeded after {self.paths} paths (inside the polyid kernel)")
+                self.work.clear()
+                break
             except Unsupported as e:
                 self.unsupported.append(f"{function_name}: {e} [path {' '.join(path.sig)}]")
                 self.path_log.append((function_name, " ".join(path.sig), f"unsupported: {e}", path.obl_count))
